@@ -702,7 +702,7 @@ def judge_one(ctx, c, r, n, *, tamper=None, preps=None):
 # --------------------------------------------------------------------------------------------
 def run(ctx):
     rng = random.Random(ctx.seed * 7919 + 2)
-    n = 2000 if ctx.tier == "quick" else 24000
+    n = 2000 if ctx.tier == "quick" else 36000
     ctx.rule = ("(instance, policy) pairs: random members of MDPFam (1-3 non-absorbing + 0-2 explicitly absorbing states with "
                 "ghost dynamics and ghost policy rows, implicit absorbing states, 1-3 state-dependent actions, gamma in "
                 "{1/2,3/4,9/10,1}, PD in {2,4}, initial mass on absorbing states) x stochastic policies with weights in "
